@@ -20,6 +20,8 @@ for d in sorted(glob.glob(os.path.join(V, "seeded", "*"))):
             own += ": " + cl(keys[0][4:].split(" what=")[0], 70)
     else:
         own = "(not swept)"
+    if m.get("superseded"):
+        own = "superseded by a repair of the tree (see the table of misses)"
     others = ", ".join(c for c in m.get("caught_by", []) if c != tag[:3]) or "-"
     rows.append("| %s | %s | %s | %s | %s |" % (tag, cl(m.get("summary"), 230), cl(m.get("needs"), 170), own, others))
 import sys
